@@ -29,18 +29,56 @@ U8 = T('Uint8Array', {'t': 'typedarray', 'name': 'Uint8Array'})
 ANY, UNKNOWN = T('any', {'t': 'any'}), T('unknown', {'t': 'any'})
 
 
+# STYLE selects between equivalent spellings of the same program (used by C08: meaning-preserving rewrites).  The EXPECTED meaning never
+# depends on it.  0 = plain; 1 = rewritten (reordered members/properties/declarations, extra aliases and generic wrappers, parentheses,
+# readonly, comments/JSDoc, interface <-> object type, T[] <-> Array<T>)
+STYLE = {'v': 0, 'n': 0}
+
+
+def _rw():
+    return STYLE['v'] == 1
+
+
+def _wrap(ts_text, decls):
+    """style 1: sometimes hide a sub-expression behind an alias or an identity generic"""
+    if not _rw():
+        return ts_text, decls
+    STYLE['n'] += 1
+    k = STYLE['n'] % 4
+    if k == 0:
+        name = f'W{STYLE["n"]}'
+        return name, decls + [f'/** alias introduced by a rewrite */\ntype {name} = {ts_text};']
+    if k == 1:
+        name = f'Id{STYLE["n"]}'
+        return f'{name}<{ts_text}>', decls + [f'type {name}<X> = X;']
+    if k == 2:
+        return f'(({ts_text}))', decls
+    return ts_text, decls
+
+
 def lit(v):
     return T(json.dumps(v), C(v), lits=[v])
 
 
 def union(*ts):
+    if _rw():
+        ts = tuple(reversed(ts))
     lits = None
     if all(t.lits is not None for t in ts):
         lits = [x for t in ts for x in t.lits]
-    return T('(' + ' | '.join(t.ts for t in ts) + ')', {'t': 'anyof', 'xs': [t.spec for t in ts]}, [d for t in ts for d in t.decls], lits=lits)
+    if _rw():
+        STYLE['n'] += 1
+        body = '\n  | '.join((f'/** member {i} */ ' if STYLE['n'] % 2 == 0 else '') + t.ts for i, t in enumerate(ts))
+    else:
+        body = ' | '.join(t.ts for t in ts)
+    text, decls = _wrap('(' + body + ')', [d for t in ts for d in t.decls])
+    return T(text, {'t': 'anyof', 'xs': [t.spec for t in ts]}, decls, lits=lits)
 
 
 def arr(t):
+    if _rw():
+        STYLE['n'] += 1
+        return T([f'ReadonlyArray<{t.ts}>', f'({t.ts})[]', f'readonly ({t.ts})[]'][STYLE['n'] % 3], {'t': 'array', 'x': t.spec}, t.decls)
     return T(f'Array<{t.ts}>', {'t': 'array', 'x': t.spec}, t.decls)
 
 
@@ -51,14 +89,21 @@ def tup(items, rest=None):
 
 
 def obj(props, index=None):
-    parts = [f'{json.dumps(k)}{"?" if opt else ""}: {t.ts}' for k, (t, opt) in props.items()]
-    if index is not None:
-        parts.append(f'[k: string]: {index.ts}')
+    if _rw():
+        parts = [f'/** doc for {k} */ readonly {json.dumps(k)}{"?" if opt else ""}: {t.ts}' for k, (t, opt) in reversed(list(props.items()))]
+        if index is not None:
+            parts.insert(0, f'[key: string]: {index.ts}')
+    else:
+        parts = [f'{json.dumps(k)}{"?" if opt else ""}: {t.ts}' for k, (t, opt) in props.items()]
+        if index is not None:
+            parts.append(f'[k: string]: {index.ts}')
     spec = O({k: (OPT(t.spec) if opt else t.spec) for k, (t, opt) in props.items()}, [{'key': S, 'value': index.spec}] if index is not None else [])
     return T('{ ' + '; '.join(parts) + ' }', spec, [d for t, _ in props.values() for d in t.decls] + (index.decls if index else []), props=dict(props) if index is None else None)
 
 
 def inter(*ts):
+    if _rw():
+        ts = tuple(reversed(ts))
     return T('(' + ' & '.join(t.ts for t in ts) + ')', {'t': 'allof', 'xs': [t.spec for t in ts]}, [d for t in ts for d in t.decls])
 
 
@@ -72,6 +117,11 @@ def fresh(prefix):
 
 def alias(t, name=None):
     name = name or fresh('A')
+    if _rw():
+        name = name + '_renamed'
+        if t.props is not None and t.ts.startswith('{') and (STYLE['n'] + len(name)) % 2 == 0:
+            # object type alias <-> interface
+            return T(name, t.spec, t.decls + [f'// rewritten as an interface\ninterface {name} {t.ts}'], props=t.props, lits=t.lits)
     return T(name, t.spec, t.decls + [f'type {name} = {t.ts};'], props=t.props, lits=t.lits)
 
 
@@ -88,6 +138,9 @@ def interface(props, extends=None):
         merged.update(props)
         allprops = merged
     full = obj(allprops)
+    if _rw() and extends is None:
+        # interface <-> object type alias
+        return T(name, full.spec, decls + [f'type {name} = {{ {body} }};'], props=allprops)
     return T(name, full.spec, decls + [f'interface {name}{ext} {{ {body} }}'], props=allprops)
 
 
@@ -203,7 +256,10 @@ def recursive_tree():
     return t
 
 
-def programs(tier, rng):
+def programs(tier, rng, style=0):
+    STYLE['v'] = style
+    STYLE['n'] = 0
+    _n[0] = 0
     leaves = [STRING, NUMBER, BOOLEAN, TNULL, lit(1), lit('a'), lit(True)]
 
     def leaf():
@@ -244,6 +300,9 @@ def programs(tier, rng):
             inter(obj({'id': (STRING, False), 't': (STRING, False)}), obj({'id': (STRING, False), 'b': (NUMBER, True)})),
             union(inter(alias(obj({'kind': (union(lit('a'), lit('b')), False), 'x': (STRING, False)})), alias(obj({'kind': (lit('a'), False)}))), alias(obj({'kind': (lit('c'), False), 'y': (NUMBER, False)}))),
             union(inter(alias(obj({'kind': (lit('a'), False)})), alias(obj({'kind': (union(lit('a'), lit('b')), False), 'x': (STRING, False)}))), alias(obj({'kind': (lit('c'), False), 'y': (NUMBER, False)}))),
+            obj({'p': (tup([NUMBER, NUMBER]), False), 'q': (tup([NUMBER, NUMBER, NUMBER]), False)}), obj({'p': (tup([STRING, NUMBER]), False), 'q': (tup([NUMBER, STRING]), True)}),
+            tup([tup([lit(1), lit('a')]), tup([lit('a'), lit(1)])]), obj({'s': (union(lit('x'), lit('y'), lit('z')), False), 't': (union(lit('z'), lit('y')), True)}),
+            obj({'a-b': (STRING, True), 'c d': (NUMBER, False), '1x': (BOOLEAN, True)}), obj({'a.b': (STRING, False)}, index=STRING),
             tup([]), tup([STRING], rest=NUMBER), tup([], rest=BOOLEAN), obj({}), obj({}, index=NUMBER), obj({'a': (STRING, False)}, index=union(STRING, NUMBER))]
     return out
 
